@@ -78,6 +78,31 @@ def run(out: common.Outcome, explore: int = 0) -> None:
     # direction 2 on strings rendered by the implementation itself and by python's own formatting
     g_cases = [(u, s, impl_g(s)) for (u, s) in a_cases if not s.startswith("ERR:")]
 
+    # the same converters in a process whose local time zone is not UTC (results must not depend on TZ)
+    import subprocess, json as _json
+    tz_inst = inst[:n_boundary:7] + inst[n_boundary:n_boundary + 300]
+    code = ("import sys, json; import tel2puml.events\n"
+            "from tel2puml.utils import unix_nano_to_pv_string as f\n"
+            "from tel2puml.pv_to_tel import convert_timestamp_to_unix_nano as g\n"
+            "us = json.loads(sys.stdin.read()); out = []\n"
+            "for u in us:\n"
+            "    s = f(1000 * u)\n"
+            "    out.append([s, int(g(s))])\n"
+            "print(json.dumps(out))\n")
+    env = common.impl_env(0)
+    env["TZ"] = "GMT0BST,M3.5.0/1,M10.5.0/2"
+    r = subprocess.run([common.PY, "-c", code], input=_json.dumps(tz_inst), capture_output=True, text=True, env=env, timeout=600)
+    tz_bad = []
+    try:
+        tz_out = _json.loads(r.stdout.strip().splitlines()[-1])
+        for u, (s2, g2) in zip(tz_inst, tz_out):
+            if s2 != impl_f(1000 * u) or g2 != impl_g(s2):
+                tz_bad.append(dict(us=u, utc_process=[impl_f(1000 * u), impl_g(impl_f(1000 * u))], bst_process=[s2, g2]))
+    except Exception as e:  # noqa
+        tz_bad.append(dict(error="subprocess failed: " + (r.stderr or "")[-300:]))
+    for b in tz_bad[:2]:
+        out.violation({"kind": "conversion depends on the process time zone (TZ=GMT0BST...)", **b})
+
     # monotonicity over everything the implementation produced (pure observation, no model)
     allpairs = sorted([(1000 * u, s) for u, s in a_cases] + u_cases)
     mono_bad = [(allpairs[i], allpairs[i + 1]) for i in range(len(allpairs) - 1)
@@ -154,7 +179,7 @@ def run(out: common.Outcome, explore: int = 0) -> None:
         "samples": [{"unix_nano": 1000 * a_cases[i][0], "impl_pv": a_cases[i][1], "impl_back": g_cases[i][2] if i < len(g_cases) else None}
                     for i in (0, n_boundary // 2, n_boundary + 1)],
         "traces_validated_against_impl": len(a_cases) + len(u_cases) + len(g_cases),
-        "boundary_instants": n_boundary, "random_instants": n_rand, "unaligned": len(u_cases),
+        "boundary_instants": n_boundary, "random_instants": n_rand, "unaligned": len(u_cases), "non_utc_process_instants": len(tz_inst),
         "pv_to_nano_classification": {"equals_exact": len(g_cases) - len(not_exact), "equals_v0_only": len(known),
                                       "equals_neither": len(new_bad)},
         "model_impl_disagreements": len(corr_bad),
